@@ -329,9 +329,17 @@ fn one_session<C: Names + embedded_cli::service::Autocomplete + embedded_cli::se
     let hbuf: &'static mut [u8] = Box::leak(vec![0u8; hcap].into_boxed_slice());
     let prompt: &'static str = if it % 2 == 0 { "$ " } else { "" };
     let prompt0 = prompt;
-    let built = CliBuilder::default().writer(sink.clone()).command_buffer(cbuf).history_buffer(hbuf).prompt(prompt0).build();
+    // every eighth session is built with the deprecated constructor (default prompt "$ "), the others with the builder
+    let legacy = it % 8 == 2;
+    #[allow(deprecated)]
+    let built = if legacy {
+        embedded_cli::cli::Cli::new(sink.clone(), cbuf, hbuf)
+    } else {
+        CliBuilder::default().writer(sink.clone()).command_buffer(cbuf).history_buffer(hbuf).prompt(prompt0).build()
+    };
     let mut trace = format!(
-        "commands={} cmd_buf={} hist_buf={} prompt={:?} fail_at_op={:?} keys=",
+        "{}commands={} cmd_buf={} hist_buf={} prompt={:?} fail_at_op={:?} keys=",
+        if legacy { "constructor=Cli::new " } else { "" },
         if it % 2 == 0 { "raw" } else { "derived[öffne,get,set,get-led,get-adc,старт,стоп,exit,hex-dump,hex-load]" },
         cap,
         hcap,
@@ -367,6 +375,10 @@ fn one_session<C: Names + embedded_cli::service::Autocomplete + embedded_cli::se
         let evs = sink.0.borrow().evs.clone();
         if want(only, "C15") && !evs.is_empty() && evs.last() != Some(&SinkEv::F) {
             return Some(Cex { input: trace, expected: "flush after the initial prompt".into(), actual: format!("{:?}", evs) });
+        }
+        // C06 / C15: a freshly built CLI has put its prompt on the terminal
+        if !prompt.is_empty() && bytes_of(&evs) != prompt.as_bytes() && (want(only, "C06") || want(only, "C15")) {
+            return Some(Cex { input: trace, expected: format!("the prompt {:?} written and flushed by the constructor", prompt), actual: esc(&bytes_of(&evs)) });
         }
     }
     let mut prompt: &'static str = prompt;
